@@ -611,6 +611,15 @@ func (r *ndRun) apply(op NDOp) *core.Violation {
 			return ndViol(r.prop, "reopen-error", "reopen-error", fmt.Sprintf("%s: op %d: reopening the database failed: %v", r.backend, r.opIdx, err))
 		}
 		r.ndb = ndb
+		// Every other reopen is followed by an explicit compaction (the storage compaction command
+		// of the node): whatever the database told its LSM tree to discard at open is dropped now,
+		// and every retained version must still read back (checked after the operation as usual).
+		if r.opIdx%2 == 1 {
+			if err := r.ndb.Compact(); err != nil {
+				return ndViol(r.prop, "compact-error", "compact-error", fmt.Sprintf("%s: op %d: Compact after reopen failed: %v", r.backend, r.opIdx, err))
+			}
+			r.st.Inc("probe.compacted_after_reopen")
+		}
 		// Candidates of the pending version survive a clean reopen (they are committed durably).
 		r.obsf("reopen")
 		r.st.Event("%s reopen", r.backend)
